@@ -92,7 +92,8 @@ def gen_project(rng, variant=0):
         "install(*data, directory=Path('p13', InstallRoot.datadir))",
         "install(man_page('doc/p13.1'))",
         "pkg_config('p13', version='1.2.3', includes=[inc], libs=[liba, libb], requires=['zlib >= 1.0'], "
-        "conflicts=[('oldp13', '>=1,<2,!=1.5,!=1.6'), ('otherp13', '!=3,!=4,!=5,>0.5')])",
+        "conflicts=[('oldp13', '>=1,<2,!=1.5,!=1.6'), ('otherp13', '!=3,!=4,!=5,>0.5'), "
+        "('tiep13', '>=2.0,!=2.0'), ('tie2p13', '<=1.0,!=1.0,>=0.5,!=0.5')])",          # specifiers with EQUAL versions too
         "pkg_config('p13-static', version='1.2.3', includes=[inc], libs=[libs], auto_fill=False)",
         "t1 = executable('t1', files=['t1.c'], libs=[liba])",
         "t2 = executable('t2', files=['t2.c'], libs=[libb])",
@@ -861,7 +862,8 @@ def stage_w(rep, rng, n):
     for _ in range(max(20, n // 10)):
         lo, hi = rng.randint(0, 3), rng.randint(6, 9)
         specs = [rng.choice(['>=', '>']) + str(lo)] * rng.randint(0, 1) + [rng.choice(['<=', '<']) + str(hi)] * rng.randint(0, 1) + \
-                ['!=%d.%d' % (rng.randint(lo + 1, hi - 1), rng.randint(0, 9)) for _ in range(rng.randint(0, 4))]
+                ['!=%d.%d' % (rng.randint(lo + 1, hi - 1), rng.randint(0, 9)) for _ in range(rng.randint(0, 4))] + \
+                ['!=%d' % lo] * rng.randint(0, 1) + ['!=%d' % hi] * rng.randint(0, 1)        # the same version under two operators
         if not specs:
             continue
         text = ','.join(specs)
